@@ -168,6 +168,43 @@ def parse_fn(e):
     return conj(ok)
 
 
+def chain_setup():
+    from . import c17
+    c17.setup()
+
+
+def chain_fn(geo, flow_str):
+    """manager -> design class -> search class: the flow specification given to set_design reaches the search unchanged, for every
+    design method (real setters and Design* constructors; candidate generators and the search classes are recorders)"""
+    def fn(e):
+        import ghedesigner.design as DS
+        import ghedesigner.manager as M
+        from ghedesigner.enums import FlowConfigType
+
+        from . import c17
+        v = c17.V(e=e)
+        m = c17.configure(M, v, geo, 'SINGLEUTUBE', dict(flow_type=flow_str))
+        flow = e.inputs['flow']
+        got = {}
+
+        def recorder(name):
+            def ctor(*a, **k):
+                got['cls'] = name
+                got['flow_type'] = k.get('flow_type')
+                # positional layout of the real constructors: (domain, descriptors, v_flow, ...) for the bisection classes, (v_flow, ...) for RowWise
+                got['v_flow'] = k.get('v_flow', a[0] if name.startswith('RowWise') else a[2])
+                return NS()
+            return ctor
+        for name in ('Bisection1D', 'Bisection2D', 'BisectionZD', 'RowWiseModifiedBisectionSearch'):
+            shadow(DS, name, recorder(name))
+        m._design.find_design()
+        exp = FlowConfigType.SYSTEM if flow_str.lower() == 'system' else FlowConfigType.BOREHOLE
+        vf = got.get('v_flow')
+        same_flow = isinstance(vf, Sym) and vf.t.eq(flow)
+        return conj([m._design.flow_type == exp, got.get('flow_type') == exp, same_flow, isinstance(m._design.V_flow, Sym) and m._design.V_flow.t.eq(flow)])
+    return fn
+
+
 def units(tier, seed):
     F = ['search_routines.py:Bisection1D.retrieve_flow', 'search_routines.py:RowWiseModifiedBisectionSearch.retrieve_flow',
          'ground_heat_exchangers.py:BaseGHE.__init__', 'manager.py:GHEManager.set_design']
@@ -179,5 +216,11 @@ def units(tier, seed):
         Unit('rowwise', make_fn('RowWiseModifiedBisectionSearch'), make_replay('RowWiseModifiedBisectionSearch'), setup, F, B, AS, ST),
         Unit('fp_relative_error', fp_fn, None, None, [], 'v in [1e-4, 10], two rounding errors |eps| <= 2^-53', ['standard relative-error model of binary64']),
         Unit('flow_type_parsing', parse_fn, None, setup, F[3:], '9 concrete spellings; flow value symbolic', AS, ['Design* constructor -> recorder']),
+    ] + [
+        Unit('design_chain_%s_%s' % (geo, fs), chain_fn(geo, fs), None, chain_setup, ['manager.py:GHEManager.set_design', 'design.py:Design*.__init__', 'design.py:Design*.find_design'],
+             'design method %s, flow type string %r; flow value and every other numeric setting symbolic' % (geo, fs), AS,
+             ['candidate generators -> empty lists; search classes -> recorders of their constructor arguments'])
+        for geo in ('NEARSQUARE', 'RECTANGLE', 'BIRECTANGLE', 'BIZONEDRECTANGLE', 'BIRECTANGLECONSTRAINED', 'ROWWISE') for fs in ('system', 'Borehole')
+    ] + [
         Unit('twin_reachability', make_fn('Bisection1D', twin=True), None, setup, F, 'assert False must be violated', expect_cex=True),
     ]
